@@ -1,4 +1,5 @@
 import Xp.Proofs.C16History
+import Xp.Gen.C16
 /-
 C16 — establishing package objects is all-or-nothing and respects the
 active/inactive role.
@@ -274,7 +275,40 @@ ReleaseObjects / reconcile applies to every step of every history). -/
 theorem history_wf (sys : Sys) (h : List (Rev × Env)) (hw : WF sys.store) : WF (runHistory sys h).store :=
   (runHistory_hinv sys h hw).wf
 
-/-! ## 5. The hypotheses are satisfiable, and the statements discriminate -/
+/-! ## 5. Tables regenerated from the source on every run
+
+`Xp/Gen/C16.lean` is produced by running the library functions of the current tree
+(`meta.AddOwnerReference`, `meta.AddControllerReference`, `meta.AsController`,
+`meta.AsOwner`, `revision.GetPackageOwnerReference`) on every list of at most two
+owner references over two uids × controller ∈ {nil,false,true}. The model's
+definitions must reproduce every row. (An exhaustive small scope tying helper
+definitions to the code — not a stand-in for any of the proofs above.) -/
+
+def ofGen (r : Xp.Gen.C16Ref) : ORef := ⟨r.1, r.2.1, r.2.2⟩
+
+set_option maxRecDepth 100000
+
+theorem addOwner_matches_library :
+    Xp.Gen.c16AddOwnerTable.all (fun c => addOwner (c.1.map ofGen) (ofGen c.2.1) == c.2.2.map ofGen) = true := by
+  decide
+
+theorem addController_matches_library :
+    Xp.Gen.c16AddControllerTable.all (fun c =>
+      (match addController (c.1.map ofGen) (ofGen c.2.1) with
+       | .ok l => some l
+       | .error _ => none) == c.2.2.map (·.map ofGen)) = true := by
+  decide
+
+theorem owner_constructors_match_library :
+    asController ⟨7, "", []⟩ = ofGen Xp.Gen.c16AsController ∧ asOwner ⟨7, "", []⟩ = ofGen Xp.Gen.c16AsOwner := by
+  decide
+
+theorem pkgRef_matches_library :
+    Xp.Gen.c16PkgRefTable.all (fun c =>
+      (pkgRef ⟨99, c.1, c.2.1.zipIdx.map fun (n, i) => ⟨n, ⟨i, some true, none⟩⟩⟩).map (·.uid) == c.2.2) = true := by
+  decide
+
+/-! ## 6. The hypotheses are satisfiable, and the statements discriminate -/
 
 section Examples
 
